@@ -226,7 +226,8 @@ def main(argv=None):
         # 3. random interleaved multi-id streams with flow control and noise
         for _ in range(300 if quick else 6000):
             rx, fsz, merged, sent = gen_stream_case(rng)
-            tx = [0x700 + i for i in range(len(rx))]
+            # (29 bit receive identifiers are answered on 29 bit transmit identifiers)
+            tx = [0x700 + i if r <= 0x7FF else 0x18DAF100 + i for i, r in enumerate(rx)]
             cases.append((rx, merged, sent, tx, rng.choice([0, 8, 12]), rng.choice([0xAA, 0x00]),
                           f"random fsz={fsz}"))
     # model
